@@ -78,3 +78,56 @@ def dup_table_entries(data, rng):
     if not ndup:
         return data, 0
     return cborgen.encode(top), ndup
+
+
+def repeat_address_events(data, rng, same_count=False):
+    """-> (bytes, number of added items): a non-aggregating writer reports one address event key in several items of a block,
+    each with its own count (all of them items of the block: RFC 8618 does not make the key unique)"""
+    top, _ = cborgen.parse(data)
+    if top.major != 4 or len(top.children) != 3:
+        return data, 0
+    added = 0
+    for blk in top.children[2].children:
+        aecs = mget(blk, 4)
+        if aecs is None or not aecs.children or aecs.indef:
+            continue
+        for j in range(len(aecs.children)):
+            if rng.random() < 0.5:
+                continue
+            item = copy.deepcopy(aecs.children[j])
+            cnt = mget(item, 4)
+            if cnt is None or cnt.major != 0:
+                continue
+            if not same_count:
+                cnt.arg = cnt.arg + rng.randrange(1, 6)
+                cnt.width = None
+            aecs.children.append(item)
+            added += 1
+        aecs.arg = len(aecs.children)
+        aecs.width = None
+    if not added:
+        return data, 0
+    return cborgen.encode(top), added
+
+
+def drop_block_parameters_index(data, rng):
+    """-> (bytes, number of blocks changed): blocks that use parameter set 0 may omit the optional block-parameters-index"""
+    top, _ = cborgen.parse(data)
+    if top.major != 4 or len(top.children) != 3:
+        return data, 0
+    n = 0
+    for blk in top.children[2].children:
+        pre = mget(blk, 0)
+        if pre is None or pre.indef:
+            continue
+        ch = pre.children
+        for i in range(0, len(ch) - 1, 2):
+            if _key(ch[i]) == 1 and ch[i + 1].major == 0 and ch[i + 1].arg == 0:
+                del ch[i:i + 2]
+                pre.arg = len(ch) // 2
+                pre.width = None
+                n += 1
+                break
+    if not n:
+        return data, 0
+    return cborgen.encode(top), n
